@@ -376,7 +376,10 @@ def collect(@X@: Node, scale: int) -> int:
 
 	return scaled(1) + @X@.value
 '''),
-	('count', 'amount', '''class Bag:
+	('count', 'amount', '''from collections.abc import Callable
+
+
+class Bag:
 	count: int
 
 	def __init__(self) -> None:
@@ -394,7 +397,7 @@ def count(n: int) -> int:
 
 def use(@X@: int) -> int:
 	b = Bag()
-	fn = lambda q: q + @X@ + b.count
+	fn: Callable[[int], int] = lambda q: q + @X@ + b.count
 	return b.grow(@X@) + fn(1)
 
 
